@@ -75,4 +75,70 @@ theorem kd_alloc_linear_bound_false :
           (Kd.decodeKdGeometry {} { rest := wideBody, version := 515 }).2.declared) := by
   decide +kernel
 
+/-! ### bitstreams older than 2.3
+
+  `Kd.decodeKdGeometry` dispatches to `Kd.decodeKdGeometryLegacy` below 2.3; `kd_alloc_bounded`,
+  `kd_body_alloc_invariant` (and `C18Eb.alloc_classified`, `C18Eb.decode_consumes_prefix` built on them)
+  therefore cover the legacy paths since the dispatch was added.  The legacy part on its own: -/
+
+/-- **C18 on legacy (1.0 … 2.2) kd-tree streams, classified.**  The legacy body decoder keeps the
+    allocation invariant from any state that satisfies it, on every outcome: every event is within
+    `A + K·(length + declared)` — the attribute id tables, the tuple vector, `Reset(num_points)` of every
+    attribute (the count equals the header's since 0596d06), the output iterator's scratch buffer, the
+    `reserve(num_points_)` of the float tree's quantized points (equal to the header's count since
+    d17d15d also when that is 0; at most that many points are appended since 63027a3), the four
+    members of the embedded three-dimensional tree decoder of the float method (constant), the `bits_`
+    of the direct bit decoders — OR it is one of the four dimension-sized members of the integer
+    method's `DynamicIntegerPointsKdTreeDecoder(total_dimensionality)` (the known finding, same
+    constructor as on 2.3 streams), bounded by `kdStackBytes (1275 · length)`. -/
+theorem kd_alloc_bounded_legacy (bs : Bytes) (hb : IsBytes bs) :
+    TrC bs (kdX (1275 * bs.length)) 0 Kd.decodeKdGeometryLegacy (fun _ => 0) (fun _ => True) :=
+  trc_decodeKdGeometryLegacy hb
+
+/-- the same as a statement about the allocation log of a run on the bytes `bs` entered at version
+    `v`: every event is within the linear bound or in the exceptional class -/
+theorem kd_alloc_bounded_legacy_log (bs : Bytes) (hb : IsBytes bs) (v : Nat) :
+    ∀ e ∈ (Kd.decodeKdGeometryLegacy { rest := bs, version := v }).2.allocs,
+      e.2 ≤ 4259840 + 2048 * (bs.length + (Kd.decodeKdGeometryLegacy { rest := bs, version := v }).2.declared) ∨
+      ((e.1 = "kd_tree_decoder.p" ∨ e.1 = "kd_tree_decoder.axes" ∨ e.1 = "kd_tree_decoder.base_stack" ∨
+          e.1 = "kd_tree_decoder.levels_stack") ∧
+        e.2 ≤ kdStackBytes (1275 * bs.length)) := by
+  have h0 : InvC bs (kdX (1275 * bs.length)) 0 { rest := bs, version := v } :=
+    ⟨List.suffix_refl _, Nat.le_refl _, by simp⟩
+  have h := kd_alloc_bounded_legacy bs hb _ h0
+  intro e he
+  rcases hr : Kd.decodeKdGeometryLegacy { rest := bs, version := v } with ⟨r, s'⟩
+  rw [hr] at he
+  cases r with
+  | none => exact (h.1 s' hr).allocs e he
+  | some a => exact (h.2 a s' hr).1.allocs e he
+
+/-- **forward-only reads on the legacy paths** (C02 purity): whatever the bytes and the outcome, what
+    the legacy kd-tree body decoder leaves unread is a suffix of the bytes it was given — this
+    includes the rANS sections handed to the bit decoders at `StartDecoding`, which are cut out of the
+    remaining input and never extend past it -/
+theorem kd_legacy_consumes_prefix (bs : Bytes) (hb : IsBytes bs) (v : Nat) :
+    (Kd.decodeKdGeometryLegacy { rest := bs, version := v }).2.rest <:+ bs := by
+  have h0 : InvC bs (kdX (1275 * bs.length)) 0 { rest := bs, version := v } :=
+    ⟨List.suffix_refl _, Nat.le_refl _, by simp⟩
+  have h := kd_alloc_bounded_legacy bs hb _ h0
+  rcases hr : Kd.decodeKdGeometryLegacy { rest := bs, version := v } with ⟨r, s'⟩
+  cases r with
+  | none => exact (h.1 s' hr).suf
+  | some a => exact (h.2 a s' hr).1.suf
+
+/-- the quadratic stacks are reached on the legacy integer path too: the 2.3 witness body with the
+    legacy layout (8 × 250 components, integer method) logs the same 513 544 024-byte event.
+    Non-vacuity of the exceptional disjunct of `kd_alloc_bounded_legacy_log`. -/
+def wideBodyLegacy : Bytes :=
+  [1, 0, 0, 0, 1, 8, 4, 2, 250, 0, 0, 4, 2, 250, 0, 1, 4, 2, 250, 0, 2, 4, 2, 250, 0, 3, 4, 2, 250, 0, 4,
+   4, 2, 250, 0, 5, 4, 2, 250, 0, 6, 4, 2, 250, 0, 7, 1, 0, 1, 0, 0, 0, 1, 0, 0, 0, 1, 0, 0, 0]
+
+theorem kd_alloc_linear_bound_false_legacy :
+    ("kd_tree_decoder.base_stack", 513544024) ∈
+        (Kd.decodeKdGeometryLegacy { rest := wideBodyLegacy, version := 514 }).2.allocs ∧
+      ¬ 513544024 ≤ 4259840 + 2048 * (wideBodyLegacy.length +
+          (Kd.decodeKdGeometryLegacy { rest := wideBodyLegacy, version := 514 }).2.declared) := by
+  decide +kernel
+
 end Draco.C18Kd
